@@ -22,12 +22,12 @@ type TaskExecutor
   monitor queuedElementsMutex level 4 guards
     invariant self.queuedElements != nil && self.queuedElements.m != nil && self.queuedElements.opts != nil && unlocked(self.queuedElements.mutex)
     invariant forall e Int :: sel(live, e) ==> has(self.queuedElements.m, sel(idOf, e)) && self.queuedElements.m[sel(idOf, e)] == e
-    invariant forall k T :: has(self.queuedElements.m, k) ==> self.queuedElements.m[k] != nil && sel(idOf, self.queuedElements.m[k]) == k && self.queuedElements.m[k].timedQueue != nil && self.queuedElements.m[k].rawElem != nil && self.queuedElements.m[k].cancel != nil
+    invariant forall k T :: has(self.queuedElements.m, k) ==> self.queuedElements.m[k] != nil && sel(idOf, self.queuedElements.m[k]) == k && self.queuedElements.m[k].timedQueue != nil && self.queuedElements.m[k].rawElem != nil && self.queuedElements.m[k].cancel != nil && sel(hq, self.queuedElements.m[k].rawElem) == self.queuedElements.m[k].timedQueue
 
 -- the underlying executor / queue (not part of this claim): scheduling returns a new element, or nil after shutdown
 assume-func github.com/iotaledger/hive.go/runtime/timed.Executor.ExecuteAt(t, f, time) (r)
   requires t != nil
-  ensures r == nil || (fresh(r) && !sel(live, r) && r.timedQueue != nil && r.rawElem != nil && r.cancel != nil)
+  ensures r == nil || (fresh(r) && !sel(live, r) && r.timedQueue != nil && r.rawElem != nil && r.cancel != nil && sel(hq, r.rawElem) == r.timedQueue)
 
 func TaskExecutor.ExecuteAt
   instantiate T: string
@@ -64,6 +64,9 @@ func TaskExecutor.ExecuteAt$1
   requires t != nil && *t != nil && identifier != nil && callback != nil && *callback != nil && scheduledTask != nil && unlocked((*t).queuedElementsMutex)
   callback callback()
   modifies everything
+  -- the task itself runs outside the identifier mutex: a task may schedule or cancel tasks of this executor (its own
+  -- identifier included) - under the mutex that would be a self-deadlock of the worker
+  ghost before call TaskExecutor.ExecuteAt$1#callback: assert unlocked((*t).queuedElementsMutex)
   -- its own element: the variable is assigned under the mutex by ExecuteAt before the wrapper can take the mutex
   ghost after acquire: cur = *scheduledTask
   ghost after acquire: live = upd(live, cur, false)
@@ -86,17 +89,38 @@ type Queue
 
 -- removes the element from the heap if it is still in it, by its maintained index (the heap itself - generalheap
 -- through container/heap - is outside this claim: assumed to touch the heap slice, its elements and their indices only)
-assume-func github.com/iotaledger/hive.go/runtime/timed.Queue.removeElement(t, element)
-  requires t != nil && element != nil && element.rawElem != nil && held(t.heapMutex)
-  modifies t.heap, allelems(int), generalheap.HeapElement.index
+-- (the pinned generalheap dependency: Index reports the maintained index)
+assume-func-here github.com/iotaledger/hive.go/ds/generalheap.HeapElement.Index(h) (r)
+  ensures r == h.index
+-- removeElement: an element that does not say "removed" (index -1) IS removed - through container/heap, by the index it
+-- says (which the invariant of the heap lock makes the element's own slot) - whatever that index is, 0 included; an
+-- element that is already gone is left alone
+func Queue.removeElement
+  instantiate T: int
+  requires t != nil && element != nil && element.rawElem != nil && held(t.heapMutex) && sel(hq, element.rawElem) == t
+  requires (forall i Int :: 0 <= i && i < len(t.heap) ==> t.heap[i] != nil && t.heap[i].index == i && sel(hq, t.heap[i]) == t) && (forall r Int :: sel(hq, r) == t && as(*generalheap.HeapElement[HeapKey, *QueueElement[T]], r).index != 0 - 1 ==> 0 <= as(*generalheap.HeapElement[HeapKey, *QueueElement[T]], r).index && as(*generalheap.HeapElement[HeapKey, *QueueElement[T]], r).index < len(t.heap) && t.heap[as(*generalheap.HeapElement[HeapKey, *QueueElement[T]], r).index] == r)
+  modifies Queue.heap, allelems(int), generalheap.HeapElement.index
+  ghost local idx0 Int
+  ghost local removed Bool
+  ghost at entry: idx0 = element.rawElem.index
+  ghost at entry: removed = false
+  ghost before call Remove: assert idx0 != 0 - 1 && arg1 == idx0 && 0 <= arg1 && arg1 < len(t.heap) && t.heap[arg1] == element.rawElem
+  ghost after call Remove: assume (forall i Int :: 0 <= i && i < len(t.heap) ==> t.heap[i] != nil && t.heap[i].index == i && sel(hq, t.heap[i]) == t) && (forall r Int :: sel(hq, r) == t && as(*generalheap.HeapElement[HeapKey, *QueueElement[T]], r).index != 0 - 1 ==> 0 <= as(*generalheap.HeapElement[HeapKey, *QueueElement[T]], r).index && as(*generalheap.HeapElement[HeapKey, *QueueElement[T]], r).index < len(t.heap) && t.heap[as(*generalheap.HeapElement[HeapKey, *QueueElement[T]], r).index] == r)
+  ghost after call Remove: removed = true
+  ghost at return: assert idx0 != 0 - 1 ==> removed
+  ensures held(t.heapMutex)
   ensures (forall i Int :: 0 <= i && i < len(t.heap) ==> t.heap[i] != nil && t.heap[i].index == i && sel(hq, t.heap[i]) == t) && (forall r Int :: sel(hq, r) == t && as(*generalheap.HeapElement[HeapKey, *QueueElement[T]], r).index != 0 - 1 ==> 0 <= as(*generalheap.HeapElement[HeapKey, *QueueElement[T]], r).index && as(*generalheap.HeapElement[HeapKey, *QueueElement[T]], r).index < len(t.heap) && t.heap[as(*generalheap.HeapElement[HeapKey, *QueueElement[T]], r).index] == r)
 
 -- Shutdown: with the cancel flag the pending elements are taken out of the heap one by one through container/heap (each
 -- is marked removed), otherwise they stay; in both cases the handle invariant above holds when the heap lock is released
 assume-func github.com/iotaledger/hive.go/ds/bitmask.BitMask.HasBits(b, bits) (r)
   ensures true
--- (container/heap.Pop is code outside this claim: an unknown call - whatever it does to memory, afterwards the invariant
--- is assumed to hold again, see above)
+-- (container/heap is code outside this claim: assumed to touch heap slices, their elements and the elements' indices only;
+-- afterwards the invariant is assumed to hold again, see above)
+assume-func-here container/heap.Pop(h) (r)
+  modifies Queue.heap, allelems(int), generalheap.HeapElement.index
+assume-func-here container/heap.Remove(h, i) (r)
+  modifies Queue.heap, allelems(int), generalheap.HeapElement.index
 func Queue.Shutdown
   instantiate T: int
   requires t != nil && t.waitCond != nil && t.ctxCancel != nil && unlocked(t.heapMutex) && unlocked(t.shutdownMutex)
@@ -111,8 +135,8 @@ func Queue.Shutdown
 -- an element that a poller has already popped and is waiting for is woken up and skipped
 func QueueElement.Cancel
   instantiate T: int
-  requires timedQueueElement != nil && timedQueueElement.timedQueue != nil && timedQueueElement.rawElem != nil && timedQueueElement.cancel != nil && unlocked(timedQueueElement.timedQueue.heapMutex)
-  modifies timedQueueElement.timedQueue.heap, allelems(int), generalheap.HeapElement.index, chans
+  requires timedQueueElement != nil && timedQueueElement.timedQueue != nil && timedQueueElement.rawElem != nil && timedQueueElement.cancel != nil && unlocked(timedQueueElement.timedQueue.heapMutex) && sel(hq, timedQueueElement.rawElem) == timedQueueElement.timedQueue
+  modifies Queue.heap, allelems(int), generalheap.HeapElement.index, chans
   ensures closed(timedQueueElement.cancel) && unlocked(timedQueueElement.timedQueue.heapMutex)
   ensures forall c Int :: old(closed(c)) ==> closed(c)
 
@@ -171,4 +195,20 @@ func Queue.Add
   ghost at entry: notified = false
   ghost after notify: notified = true
   ghost at return: assert addedElement != nil ==> notified
+-- the executor's workers: a worker leaves (and takes its count back from the shutdown WaitGroup) only after Poll has come
+-- back empty-handed - Poll(true) does that only when the queue is shut down AND drained, so tasks still pending at a plain
+-- Shutdown are executed first
+-- (checked for this statement only - opt only-ghost-asserts)
+func Executor.startBackgroundWorkers$1
+  opt thread
+  opt only-ghost-asserts
+  requires t != nil && *t != nil
+  modifies everything
+  ghost local drained Bool        -- the last Poll returned no task (ghost)
+  ghost at entry: drained = false
+  ghost before call Queue.Poll: assert arg1          -- the workers wait for work
+  ghost after call Queue.Poll: drained = (result == nil)
+  loop 1 invariant drained <==> currentEntry == nil
+  ghost before call WaitGroup.Done: assert drained
+  ghost at return: assert drained
 @*/
